@@ -25,7 +25,7 @@ RULE = ("Hypothesis generates error-free determined networks (all cluster types,
 ASSUMPTIONS = ["positional misclosure per type as in the statement's anchor: |l - l0| for lengths, heights, coordinates and their "
                "differences; |angular misclosure| * sight length for directions, angles (backsight), azimuths, zenith angles (slope length)",
                "direction blunders are injected only into sets with >= 3 directions (the orientation is then fixed by the error-free majority)"]
-REQUIRED_CLASSES = ["blunder.excluded", "blunder.kept", "defect.iso", "defect.one", "defect.ghost", "defect.single_dir", "defect.dup_dir", "defect.sdist_unused_z", "t.steep",
+REQUIRED_CLASSES = ["blunder.excluded", "blunder.kept", "defect.iso", "defect.iso_given", "defect.one", "defect.ghost", "defect.single_dir", "defect.dup_dir", "defect.sdist_unused_z", "t.steep",
                     "t.distance", "t.direction", "t.angle", "t.dh", "t.z-angle", "t.s-distance", "t.azimuth", "t.coords", "t.vector"]
 
 K_ANG = 10.0 * nm.R2G      # cc * m -> mm
@@ -69,7 +69,7 @@ def case(draw):
     nd = draw(st.integers(0, 3))
     ids = [p["id"] for p in net["points"]]
     for k in range(nd):
-        kind = draw(st.sampled_from(["iso", "one", "ghost", "single_dir", "dup_dir", "sdist_unused_z"]))
+        kind = draw(st.sampled_from(["iso", "iso_given", "one", "ghost", "single_dir", "dup_dir", "sdist_unused_z"]))
         d = {"kind": kind, "a": draw(st.sampled_from(ids)), "b": draw(st.sampled_from(ids)),
              "t": draw(st.sampled_from(["distance", "direction", "dh"])), "pos": draw(st.integers(0, 50))}
         defects.append(d)
@@ -334,6 +334,14 @@ def build(c, force_expected=None):
                                     "z": "adj" if has_z else None, "give_xy": False, "give_z": False})
             exp_removed[name] = {"2d": {"xy"}, "3d": {"xy", "z"}, "1d": {"z"}}[dims]
             labels.append("defect.iso")
+        elif kind == "iso_given":
+            # an isolated point WITH coordinates (free or constrained) and no observation at all: nothing determines it
+            name = "Sng%d" % gid
+            st_ = "constr" if d["pos"] % 2 else "adj"
+            dirty["points"].append({"id": name, "E": 12.5 + gid, "N": -7.25, "H": 201.0 + gid, "xy": st_ if has_xy else None,
+                                    "z": st_ if has_z else None, "give_xy": has_xy, "give_z": has_z})
+            exp_removed[name] = {"2d": {"xy"}, "3d": {"xy", "z"}, "1d": {"z"}}[dims]
+            labels.append("defect.iso_given")
         elif kind == "one":
             if not has_xy:
                 continue
@@ -588,7 +596,8 @@ def oracle(c, stats):
     if any(b["f"] < 1 for b in c["blunders"]):
         stats.label("blunder.kept")
     # removed points (library lists); a point may be listed once per group of coordinates
-    COVER = {0: {"xy", "z"}, 1: {"xy"}, 2: {"z"}}
+    COVER_MISSING = {0: {"xy", "z"}, 1: {"xy"}, 2: {"z"}}
+    COVER_SINGULAR = {3: {"xy"}, 4: {"z"}}
     got_removed = {}
     for name, code in dump.get("removed_points", []):
         got_removed.setdefault(name, []).append(code)
@@ -599,10 +608,12 @@ def oracle(c, stats):
             fails.append("removed.not_listed: point %s (no coordinates, not determinable) is not in removed_points %s" % (name, sorted(got_removed)))
         else:
             cov = set()
+            COVER = COVER_SINGULAR if name.startswith("Sng") else COVER_MISSING
             for code in got_removed[name]:
                 cov |= COVER.get(code, set())
             if cov != need or any(code not in COVER for code in got_removed[name]):
-                fails.append("removed.reason: point %s removed with codes %s, expected missing coordinates %s" % (name, got_removed[name], sorted(need)))
+                fails.append("removed.reason: point %s removed with codes %s, expected %s coordinates %s"
+                             % (name, got_removed[name], "singular" if name.startswith("Sng") else "missing", sorted(need)))
     for name in got_removed:
         if name not in exp_removed:
             stats.label("other_point_removed")
@@ -657,9 +668,13 @@ def oracle(c, stats):
         else:
             cov = set()
             for reason in removed_txt[name]:
-                m = re.match(r"^missing coordiantes (xyz|xy|z)$", reason)
+                if name.startswith("Sng"):
+                    m = re.match(r"^singular coordiantes? (xy|z)$", reason)
+                else:
+                    m = re.match(r"^missing coordiantes (xyz|xy|z)$", reason)
                 if not m:
-                    fails.append("report.removed_point_reason: %s listed with '%s', expected missing coordinates" % (name, reason))
+                    fails.append("report.removed_point_reason: %s listed with '%s', expected %s coordinates"
+                                 % (name, reason, "singular" if name.startswith("Sng") else "missing"))
                 else:
                     cov |= {"xyz": {"xy", "z"}, "xy": {"xy"}, "z": {"z"}}[m.group(1)]
             if cov != need:
@@ -701,6 +716,10 @@ def oracle(c, stats):
             ds = [d for d in ds if d and d > 0]
             if ds:
                 slack = 2.0 * min(1.0, vmax / min(ds)) * math.sqrt(5e-7 * max(ds))
+                if any(ob["t"] in ("z-angle", "azimuth") for cl0 in net0["clusters"] if cl0["k"] == "obs" for ob in cl0["obs"]):
+                    # zenith angles and azimuths are not part of gama's convergence test: a run that stops at the given
+                    # approximate coordinates keeps their second-order term of the shift caused by the kept blunder (as in C06)
+                    slack += 4.0 * vmax * vmax / min(ds)
                 tolc = max(tolc, slack)
                 tol_ang = max(tol_ang, slack / min(ds) * nm.R2G * 1e4)
         fl = c13.compare_results("equiv", x0, x1, stats, tolc, tol_ang)
